@@ -24,7 +24,8 @@ namespace avel {
 
         explicit Denominator(Denom8u denom):
             m(denom.m),
-            sh2(denom.sh2),
+            sh1(vec16x8u{std::uint8_t(denom.d != 1)}),
+            sh2(denom.d != 1 ? denom.sh2 : std::uint8_t(0)),
             d(denom.d) {}
 
         explicit Denominator(vec16x8u d):
